@@ -173,21 +173,29 @@ Qed.
 Lemma digit_not_minus : forall u, match uint_bytes u with c :: _ => (c =? 45) = false | [] => True end.
 Proof. destruct u; cbn [uint_bytes]; try exact I; reflexivity. Qed.
 
+(* the value strconv.ParseInt computes before the range check *)
+Definition num_value (s : list Z) : Z :=
+  match s with
+  | c :: r => if c =? 45 then - digits_value r 0 else digits_value s 0
+  | [] => 0
+  end.
+
+Lemma num_value_print_number : forall n, num_value (print_number n) = n.
+Proof.
+  intro n. unfold num_value.
+  pose proof (DecimalZ.of_to n) as OT. unfold print_number. destruct (Z.to_int n) as [u|u] eqn:E.
+  - cbn [Z.of_int] in OT. unfold Z.of_uint in OT. rewrite <- digits_value_uint in OT.
+    pose proof (digit_not_minus u) as M. destruct (uint_bytes u) as [|c r] eqn:U.
+    + cbn [digits_value] in OT. exact OT.
+    + rewrite M. exact OT.
+  - cbn [Z.of_int] in OT. unfold Z.of_uint in OT. rewrite <- digits_value_uint in OT.
+    replace (45 =? 45) with true by reflexivity. exact OT.
+Qed.
+
 Lemma parse_int_print_number : forall n, int64_ok n = true -> parse_int (print_number n) = Some n.
 Proof.
-  intros n Ok. unfold parse_int.
-  assert (V : match print_number n with
-              | c :: r => if c =? 45 then - digits_value r 0 else digits_value (print_number n) 0
-              | [] => 0
-              end = n).
-  { pose proof (DecimalZ.of_to n) as OT. unfold print_number. destruct (Z.to_int n) as [u|u] eqn:E.
-    - cbn [Z.of_int] in OT. unfold Z.of_uint in OT. rewrite <- digits_value_uint in OT.
-      pose proof (digit_not_minus u) as M. destruct (uint_bytes u) as [|c r] eqn:U.
-      + cbn [digits_value] in OT. exact OT.
-      + rewrite M. exact OT.
-    - cbn [Z.of_int] in OT. unfold Z.of_uint in OT. rewrite <- digits_value_uint in OT.
-      replace (45 =? 45) with true by reflexivity. exact OT. }
-  rewrite V, Ok. reflexivity.
+  intros n Ok. unfold parse_int. fold (num_value (print_number n)).
+  rewrite num_value_print_number, Ok. reflexivity.
 Qed.
 
 (* ---- FLOAT ------------------------------------------------------------------ *)
